@@ -61,6 +61,14 @@ inductive DepthFwd where
   | param | default | const (k : Int)
   deriving DecidableEq, Repr
 
+/-- Where a positional argument of a `Logger(core, …)` call inside `bind` / `patch` / `opt` (or of the root
+logger's construction in `loguru/__init__.py`) comes from: slot `i` of the deriving logger's `_options`
+(directly, through a starred unpacking or through a slice), the method's own `depth` parameter, or
+any other (new) value. -/
+inductive Src where
+  | old (i : Nat) | depthParam | fresh
+  deriving DecidableEq, Repr
+
 /-- How a public logging method derives the options it hands to `_log` from `self._options`:
 `selfOptions` = `__self._options` itself; `prependDrop p d` = a `p`-tuple of constants followed by
 `__self._options[d:]` (the shape of `exception()`: `(True,) + __self._options[1:]`). -/
